@@ -34,6 +34,7 @@ type Result struct {
 	States     []string          `json:"s,omitempty"` // extra state keys visited inside this case
 	Outcomes   []string          `json:"os,omitempty"`
 	NontrivN   int               `json:"ntn,omitempty"`
+	Poisoned   bool              `json:"poisoned,omitempty"` // a Go panic was recovered; the worker exits after this case
 	Died       bool              `json:"died,omitempty"`
 	TimedOut   bool              `json:"timeout,omitempty"`
 	Stderr     string            `json:"stderr,omitempty"`
@@ -68,10 +69,15 @@ func RunInProcess(kind string, c json.RawMessage) (res *Result) {
 			buf = buf[:runtime.Stack(buf, false)]
 			res = &Result{}
 			res.Violate("go-panic:"+NormalizePanic(fmt.Sprint(p)), "panic: %v\n%s", p, buf)
+			Poisoned = true
+			res.Poisoned = true
 		}
 	}()
 	return f(c)
 }
+
+// Poisoned is set after a recovered panic: the process may hold SQLite locks, so a worker exits after reporting.
+var Poisoned bool
 
 // WorkerMain is the loop of a worker subprocess.
 func WorkerMain() {
@@ -94,6 +100,9 @@ func WorkerMain() {
 			out.Write(b)
 			out.WriteByte('\n')
 			out.Flush()
+			if Poisoned {
+				os.Exit(0)
+			}
 		}
 		if err != nil {
 			return
@@ -288,7 +297,7 @@ func Map(kind string, cases []json.RawMessage, cb func(i int, c json.RawMessage,
 					}
 				}
 				r := w.run(kind, cases[i])
-				if r.Died || w.served >= RecycleEvery {
+				if r.Died || r.Poisoned || w.served >= RecycleEvery {
 					if !r.Died {
 						w.stop()
 					}
